@@ -7,6 +7,8 @@ No theorem has a size bound; hypotheses are the standard's preconditions.
 -/
 import TetlProofs.C06.Fold
 import TetlProofs.C06.Reverse
+import TetlProofs.C06.Bound
+import TetlProofs.C06.TwoRange
 namespace Tetl.C06.Props
 open Tetl Tetl.C06
 variable {α : Type}
@@ -230,5 +232,126 @@ theorem reverseBidi_eq (P R S : List α) :
   unfold reverseBidi
   rw [show P.length + R.length - P.length = R.length from by omega]
   exact reverseBidiLoop_spec R.length R P S P.length (P.length + R.length) (Nat.le_refl _) (Nat.le_refl _) (Nat.le_refl _)
+
+/-! ## lower_bound / upper_bound / equal_range (precondition: the range is partitioned by the comparison with `v`) -/
+
+theorem lowerBound_eq (lt : α → α → Bool) (v : α) (P R S : List α)
+    (hp : Spec.isPartitioned (fun x => lt x v) R = true) :
+    lowerBound lt v (P ++ R ++ S) P.length (P.length + R.length) = .ok (P.length + Spec.lowerBound lt v R) := by
+  have := boundLoop_spec (fun x => lt x v) P R S hp R.length 0 R.length (by omega) (Nat.zero_le _)
+    (by simpa using length_takeWhile_le' _ R) (Nat.le_refl _)
+  unfold lowerBound
+  rw [Nat.add_sub_cancel_left]
+  simpa [Spec.lowerBound] using this
+example : Spec.isPartitioned (fun x => decide (x < 2)) [1, 1, 2, 3] = true := by decide
+
+theorem upperBound_eq (lt : α → α → Bool) (v : α) (P R S : List α)
+    (hp : Spec.isPartitioned (fun x => !lt v x) R = true) :
+    upperBound lt v (P ++ R ++ S) P.length (P.length + R.length) = .ok (P.length + Spec.upperBound lt v R) := by
+  have := boundLoop_spec (fun x => !lt v x) P R S hp R.length 0 R.length (by omega) (Nat.zero_le _)
+    (by simpa using length_takeWhile_le' _ R) (Nat.le_refl _)
+  unfold upperBound
+  rw [Nat.add_sub_cancel_left]
+  simpa [Spec.upperBound] using this
+example : Spec.isPartitioned (fun x => !decide (2 < x)) [1, 1, 2, 3] = true := by decide
+
+theorem equalRange_eq (lt : α → α → Bool) (v : α) (P R S : List α)
+    (hp1 : Spec.isPartitioned (fun x => lt x v) R = true) (hp2 : Spec.isPartitioned (fun x => !lt v x) R = true) :
+    equalRange lt v (P ++ R ++ S) P.length (P.length + R.length)
+      = .ok (P.length + Spec.lowerBound lt v R, P.length + Spec.upperBound lt v R) := by
+  unfold equalRange
+  rw [lowerBound_eq lt v P R S hp1, upperBound_eq lt v P R S hp2]
+  rfl
+example : Spec.isPartitioned (fun x => decide (x < 2)) [1, 1, 2, 3] = true ∧
+    Spec.isPartitioned (fun x => !decide (2 < x)) [1, 1, 2, 3] = true := by decide
+
+/-! ## mismatch / equal / lexicographical_compare (second range `Q ++ T ++ U`) -/
+
+/-- 3-iterator overloads: precondition `last1 - first1 ≤` the length of the second range -/
+theorem mismatch3_eq (pred : α → α → Bool) (P R S Q T U : List α) (h : R.length ≤ T.length) :
+    mismatch3 pred (P ++ R ++ S) P.length (P.length + R.length) (Q ++ T ++ U) Q.length (Q.length + T.length)
+      = .ok (P.length + Spec.mismatch pred R T, Q.length + Spec.mismatch pred R T) := by
+  have := mismatchLoop_spec pred P R S Q T U R.length 0 (by simp; omega) (Nat.zero_le _) (Nat.zero_le _)
+  unfold mismatch3
+  rw [Nat.add_sub_cancel_left]
+  simpa using this
+example : [1, 2].length ≤ [1, 3, 4].length := by decide
+
+theorem mismatch4_eq (pred : α → α → Bool) (P R S Q T U : List α) :
+    mismatch4 pred (P ++ R ++ S) P.length (P.length + R.length) (Q ++ T ++ U) Q.length (Q.length + T.length)
+      = .ok (P.length + Spec.mismatch pred R T, Q.length + Spec.mismatch pred R T) := by
+  have := mismatchLoop_spec pred P R S Q T U (min R.length T.length) 0 (by simp) (Nat.zero_le _) (Nat.zero_le _)
+  unfold mismatch4
+  rw [Nat.add_sub_cancel_left, Nat.add_sub_cancel_left]
+  simpa using this
+
+theorem equal3_eq (pred : α → α → Bool) (P R S Q T U : List α) (h : R.length ≤ T.length) :
+    equal3 pred (P ++ R ++ S) P.length (P.length + R.length) (Q ++ T ++ U) Q.length (Q.length + T.length)
+      = .ok ((R.zip T).all (fun xy => pred xy.1 xy.2)) := by
+  have := equalLoop_spec pred P R S Q T U R.length 0 (by simp; omega) (Nat.zero_le _) (Nat.zero_le _)
+  unfold equal3
+  rw [Nat.add_sub_cancel_left]
+  simpa using this
+example : [1, 2].length ≤ [1, 3, 4].length := by decide
+
+/-- 4-iterator `equal`, random-access branch -/
+theorem equal4RA_eq (pred : α → α → Bool) (P R S Q T U : List α) :
+    equal4RA pred (P ++ R ++ S) P.length (P.length + R.length) (Q ++ T ++ U) Q.length (Q.length + T.length)
+      = .ok (Spec.equal pred R T) := by
+  unfold equal4RA Spec.equal
+  rw [Nat.add_sub_cancel_left, Nat.add_sub_cancel_left]
+  by_cases h : R.length = T.length
+  · rw [if_neg (by simp [h]), equal3_eq pred P R S Q T U (by omega)]
+    simp [h]
+  · rw [if_pos (by simpa using h)]
+    simp [h]
+
+/-- 4-iterator `equal`, input/forward-iterator branch (as repaired) -/
+theorem equal4Fwd_eq (pred : α → α → Bool) (P R S Q T U : List α) :
+    equal4Fwd pred (P ++ R ++ S) P.length (P.length + R.length) (Q ++ T ++ U) Q.length (Q.length + T.length)
+      = .ok (Spec.equal pred R T) := by
+  have := equalLoop_spec pred P R S Q T U (min R.length T.length) 0 (by simp) (Nat.zero_le _) (Nat.zero_le _)
+  unfold equal4Fwd Spec.equal
+  rw [Nat.add_sub_cancel_left, Nat.add_sub_cancel_left]
+  simp only [Nat.add_zero, List.drop_zero] at this
+  rw [this]
+  simp [Bool.and_comm]
+
+theorem lexicographicalCompare_eq (lt : α → α → Bool) (P R S Q T U : List α) :
+    lexicographicalCompare lt (P ++ R ++ S) P.length (P.length + R.length) (Q ++ T ++ U) Q.length (Q.length + T.length)
+      = .ok (Spec.lexLt lt R T) := by
+  have := lexLoop_spec lt P R S Q T U (min R.length T.length) 0 (by simp) (Nat.zero_le _) (Nat.zero_le _)
+  unfold lexicographicalCompare
+  rw [Nat.add_sub_cancel_left, Nat.add_sub_cancel_left]
+  simpa using this
+
+/-! ## accumulate / reduce / transform_reduce (unary); min / max / minmax / clamp -/
+
+theorem accumulate_eq {β : Type} (op : β → α → β) (init : β) (P R S : List α) :
+    accumulate op init (P ++ R ++ S) P.length (P.length + R.length) = .ok (Spec.accumulate op init R) := by
+  have := accLoop_spec op P R S R.length 0 init (by simp)
+  unfold accumulate
+  rw [Nat.add_sub_cancel_left]
+  simpa [Spec.accumulate] using this
+
+theorem reduce_eq {β : Type} (op : β → α → β) (init : β) (P R S : List α) :
+    reduce op init (P ++ R ++ S) P.length (P.length + R.length) = .ok (Spec.accumulate op init R) :=
+  accumulate_eq op init P R S
+
+theorem transformReduce1_eq {β : Type} (red : β → β → β) (tr : α → β) (init : β) (P R S : List α) :
+    transformReduce1 red tr init (P ++ R ++ S) P.length (P.length + R.length)
+      = .ok (Spec.accumulate red init (R.map tr)) := by
+  have := accLoop_spec (fun acc x => red acc (tr x)) P R S R.length 0 init (by simp)
+  unfold transformReduce1
+  rw [Nat.add_sub_cancel_left]
+  simpa [Spec.accumulate, List.foldl_map] using this
+
+/-- min / max / minmax / clamp are the standard's formulas verbatim (first argument on ties) -/
+theorem min2_eq (lt : α → α → Bool) (x y : α) : min2 lt x y = Spec.min2 lt x y := rfl
+theorem max2_eq (lt : α → α → Bool) (x y : α) : max2 lt x y = Spec.max2 lt x y := rfl
+theorem minmax2_eq (lt : α → α → Bool) (x y : α) : minmax2 lt x y = (Spec.min2 lt x y, Spec.max2 lt y x) := by
+  unfold minmax2 Spec.min2 Spec.max2
+  split <;> rfl
+theorem clamp_eq (lt : α → α → Bool) (v lo hi : α) : clamp lt v lo hi = Spec.clamp lt v lo hi := rfl
 
 end Tetl.C06.Props
